@@ -419,6 +419,74 @@ func (c14Suite) Gen(rng *Rng, tier string, w *bufio.Writer, stats *Stats) {
 	}
 	stats.Add("exhaustive.factory.descriptions", factoryCases)
 
+	// (2d) dense id sets: ids are EXACTLY {0..n-1} (already "normal"), registered in EVERY order (all n! permutations):
+	// by AddNode in that order, and by edges only (a path visiting the nodes in that order). Normalize must return a graph
+	// and a reverse index that FIT each other: the monitor maps every normalised neighbour back through reverse[].
+	dn, dm := 3, 3
+	if thorough {
+		dn, dm = 4, 2
+	}
+	var denseCases, densePerms int64
+	normQueries := func(c *c14Case) {
+		c.add("nodes csr")
+		for _, d := range c14Dirs {
+			c.add("norm csr %s", d)
+			c.add("norm am %s", d)
+		}
+		c.add("adj csr both")
+		c.add("reach csr out")
+	}
+	for n := 1; n <= dn; n++ {
+		perm := make([]int, n)
+		for i := range perm {
+			perm[i] = i
+		}
+		var permute func(k int)
+		permute = func(k int) {
+			if k == n {
+				densePerms++
+				maxM := dm
+				if n <= 3 && thorough {
+					maxM = 3
+				}
+				for m := 0; m <= maxM && m <= n*n; m++ {
+					combos(n*n, m, false, func(sel []int) {
+						c := &c14Case{title: fmt.Sprintf("exhaustive-dense-ids n=%d m=%d order=%v", n, m, perm)}
+						for _, v := range perm {
+							c.add("node %d", v)
+						}
+						for i, p := range sel {
+							c.add("edge %d %d %d", 100+i, p/n, p%n)
+						}
+						normQueries(c)
+						emit(c)
+						denseCases++
+					})
+				}
+				// registration by edges only: a path through the nodes in this order (plus one back edge)
+				if n >= 2 {
+					c := &c14Case{title: fmt.Sprintf("exhaustive-dense-ids n=%d path order=%v", n, perm)}
+					for i := 0; i+1 < n; i++ {
+						c.add("edge %d %d %d", 200+i, perm[i], perm[i+1])
+					}
+					c.add("edge 299 %d %d", perm[n-1], perm[0])
+					normQueries(c)
+					emit(c)
+					denseCases++
+				}
+				return
+			}
+			for i := k; i < n; i++ {
+				perm[k], perm[i] = perm[i], perm[k]
+				permute(k + 1)
+				perm[k], perm[i] = perm[i], perm[k]
+			}
+		}
+		permute(0)
+	}
+	stats.Add("exhaustive.dense_ids.cases", denseCases)
+	stats.Add("exhaustive.dense_ids.permutations", densePerms) // sum_n n!
+
 	// (3) random structured multigraphs
 	n := 300
 	if thorough {
@@ -430,6 +498,18 @@ func (c14Suite) Gen(rng *Rng, tier string, w *bufio.Writer, stats *Stats) {
 	}
 }
 
+func rngPerm(rng *Rng, n int) []int {
+	p := make([]int, n)
+	for i := range p {
+		p[i] = i
+	}
+	for i := n - 1; i > 0; i-- {
+		j := rng.Intn(i + 1)
+		p[i], p[j] = p[j], p[i]
+	}
+	return p
+}
+
 func c14PickID(rng *Rng, pool []uint64) uint64 { return pool[rng.Intn(len(pool))] }
 
 func c14Random(rng *Rng, stats *Stats, idx int) *c14Case {
@@ -439,6 +519,22 @@ func c14Random(rng *Rng, stats *Stats, idx int) *c14Case {
 	pool := make([]uint64, 0, nn)
 	seen := map[uint64]bool{}
 	base := rng.Next()
+	switch rng.Intn(8) {
+	case 0: // ids exactly {0..nn-1}, in a random order (already normal / dense)
+		for _, v := range rngPerm(rng, nn) {
+			seen[uint64(v)] = true
+			pool = append(pool, uint64(v))
+		}
+		stats.Inc("shape.dense_ids")
+	case 1: // only SOME ids below the node count
+		for _, v := range rngPerm(rng, nn) {
+			if len(pool) < (nn+1)/2 {
+				seen[uint64(v)] = true
+				pool = append(pool, uint64(v))
+			}
+		}
+		stats.Inc("shape.partly_dense_ids")
+	}
 	for len(pool) < nn {
 		var id uint64
 		switch rng.Intn(8) {
